@@ -484,5 +484,17 @@ func jsonBytes(m *Model, ask string, real []byte) []Diff {
 	if strings.HasPrefix(mv, "j=invalid-utf8") {
 		return nil
 	}
-	return cmp("json text", "j="+hx(real)+" e=nil", mv)
+	d := cmp("json text", "j="+hx(real)+" e=nil", mv)
+	if len(d) > 0 {
+		// the bytes differ: does the model's JSON reader still read the real text back as the records the
+		// model prints? (if so the difference is about the text only, and the property holds on this input)
+		want := m.Ask("jsonread " + strings.TrimSuffix(strings.TrimPrefix(mv, "j="), " e=nil"))
+		got := m.Ask("jsonread " + hx(real))
+		if got != want {
+			d[0].What = "json text, and the real text does not read back as the tree"
+			d[0].Real += " reads as " + got
+			d[0].Model += " reads as " + want
+		}
+	}
+	return d
 }
